@@ -101,6 +101,11 @@ def run(ctx):
         ctx.check(len(parses) == 1 and "parse::<u32>" in parses[0].full, "C12-R2", "parse-u32", "the captured text is parsed with str::parse::<u32> (%s)" % [p.full for p in parses], ex.where())
         for pc in parses:
             root = pure_chain_root(ex, pc.args[0])
+            hops = 0
+            while root[0] == "call" and root[1].args and hops < 6 and \
+                    root[1].matches(r"Match::<.*>::as_str$|regex::Match::as_str$|::as_str$|Try>::branch$|Option::<.*>::(unwrap|expect)$|::deref$|::as_ref$"):
+                root = pure_chain_root(ex, root[1].args[0])   # `m.as_str()`, `caps.get(1)?`, `.unwrap()`: the value is still that group
+                hops += 1
             grp = root[0] == "call" and root[1].matches(r"Index<usize>>::index$|Captures::<.*>::get$|::get$") and \
                 op_const(root[1].args[1]) is not None and op_const(root[1].args[1]).get("int") == 1
             ctx.check(grp, "C12-R2", "group-1", "the parsed text is capture group 1", pc.where())
